@@ -26,7 +26,7 @@ def gen_program(rng, nops):
             # out-of-order guard drops: any guard, not just the newest
             g = rng.choice(sorted(guards)); gt = guards.pop(g); ops.append('dg %d %d' % (gt, g))
         elif r < 0.71 and handles:
-            ops.append('is %d %d' % (t, rng.choice(handles)))
+            ops.append('%s %d %d' % ('isp' if rng.random() < 0.3 else 'is', t, rng.choice(handles)))
         elif r < 0.75 and handles:
             ops.append('rc %d %d' % (t, rng.choice(handles)))
         elif r < 0.78 and len(handles) >= 2:
@@ -97,18 +97,19 @@ PROPERTY = {
                 "Span::current, or_current, Instrumented polled and dropped anywhere, any thread, any default incl. a foreign one): for every span, "
                 "#new + #clone_span - #try_close in the collector log equals the number of live owners (refcount, by an invariant through all 16 operations, including dropping an Instrumented future whose inner future owns a span handle: future_drop_releases_inner), the calls of drop/enter/exit/poll are a function of the handle alone "
                 "(own_collector: the thread default does not occur), operations on a disabled span cause no call (disabled_silent). Enter/exit: for every span and thread, enters minus exits in the log = entered guards of that span living on that thread (enter_exit_balance, by a second invariant through all 16 operations), hence never an exit "
-                "without its enter and exactly matched once no guard is left. Silence after the last close is decided per program by the judge on the observed log. "
+                "without its enter and exactly matched once no guard is left. Silence: every call a collector receives about a span other than its creation arrives while its own count for that span is at least one (silent_after_last_close, nothing_after_zero; by a third invariant tying each collector's entered list to the log). "
                 "The hand-written model is compared call-for-call with the real tracing crate under recording collectors, and the observed log is judged by the clauses directly.",
         'note': "Trusted: Lean kernel; propext/Classical.choice/Quot.sound; the model of span.rs/instrument.rs is hand-written (tie = correspondence); programs use EnteredSpan-style guards (the borrowed "
                 "Entered<'_> guard makes the same two calls); recording collectors return the same id from clone_span; tracing-futures 0.1 combinators are not driven (tracing::Instrument is).",
         'technique': 'Lean 4 proof (invariants over op sequences) of a hand-written model + call-for-call differential run against the real crate',
     },
-    'lean_module': 'TracingModel.Props.C03E',
-    'leanchecker_modules': ['TracingModel.Props.C03'],
+    'lean_module': 'TracingModel.Props.C03S',
+    'leanchecker_modules': ['TracingModel.Props.C03', 'TracingModel.Props.C03E'],
     'namespace': 'C03',
     'units': [],
     'required_theorems': ['C03.refcount', 'C03.step_rc', 'C03.closes_match_when_gone', 'C03.disabled_silent', 'C03.own_collector', 'C03.future_drop_releases_inner',
-                          'C03.enter_exit_balance', 'C03.no_exit_without_enter', 'C03.enters_matched_when_no_guard', 'C03.step_eb'],
+                          'C03.enter_exit_balance', 'C03.no_exit_without_enter', 'C03.enters_matched_when_no_guard', 'C03.step_eb',
+                          'C03.silent_after_last_close', 'C03.nothing_after_zero', 'C03.step_sok', 'C03.step_ec'],
     'streams': [Stream('prog', 'h_span', gen=gen, nontrivial=nontrivial)],
     'rule': 'one case = one program of 15-60 ops over <=3 threads, two recording collectors (one rejecting DEBUG spans) or none as each thread\'s default, handles moved freely between threads; '
             'non-trivial = >=2 spans created, enters and closes present and either both collectors used or a clone_span observed',
